@@ -31,14 +31,24 @@ def gen_cases(rng, tier):
         node, text, toks = docs.random_doc(rng, size='small' if tier == 'quick' else rng.choice(['small', 'medium']),
                                            strings=['plain', 'utf8', 'escapes'])
         extra = ' /* ä€\U0001F600 */'
+        if i % 2:
+            # U+FEFF inside a string and inside a comment is an ordinary character (only a leading one is a byte order mark)
+            extra = ' /* ä\ufeff€\U0001F600 */'
+            if '""' in text:
+                text = text.replace('""', '"z\ufeffz"', 1)
         for pad in range(4):
             t = text + extra + ' ' * pad
             for enc in ENCS:
                 cases.append([encode(t, enc), t.encode('utf-8'), 1])
     # short texts: every length residue, first char ASCII
-    for t in ['A', 'AB', 'Aé', 'AB\U0001F600', 'ASAP2_VERSION 1 71', 'A€€€']:
+    for t in ['A', 'AB', 'Aé', 'AB\U0001F600', 'ASAP2_VERSION 1 71', 'A€€€', 'A\ufeffB', 'AB\ufeff', 'A\ufeff\ufeff "\ufeff"']:
         for enc in ENCS:
             cases.append([encode(t, enc), t.encode('utf-8'), 1])
+    # a text that itself starts with U+FEFF: exactly one leading U+FEFF of the decoded text is taken as the byte order mark
+    for t in ['\ufeffAB', '\ufeff\ufeffA\ufeffB', '\ufeffASAP2_VERSION 1 71 /* \ufeff */']:
+        for enc in ENCS:
+            full = ('\ufeff' + t) if enc.endswith('-bom') or enc == 'utf-8-sig' else t
+            cases.append([encode(t, enc), full[1:].encode('utf-8'), 1])
     # long files: a multi-byte / non-BMP character placed at and around every power-of-two byte offset that a block-wise
     # reader could use as a buffer size (a split surrogate pair or UTF-8 sequence must not change the result)
     base = 'ASAP2_VERSION 1 71 /begin PROJECT p "" /begin MODULE m "" /end MODULE /end PROJECT'
